@@ -185,8 +185,14 @@ theorem sameGroup_self_finite_float32 (t : Float32) (h : t.toModel.unpack.isFini
   unfold sameGroup
   rw [sub_self_float32 t h, abs_pzero32_ge_eps]; rfl
 
-theorem finiteSelfGroup_float32 : FiniteSelfGroup Float32 :=
-  fun t h => sameGroup_self_finite_float32 t (inRange_finite_float32 h)
+theorem sameGroup_self_float32 (t : Float32) : sameGroup t t = true := by
+  cases h : t.toModel.unpack.isFinite
+  · unfold sameGroup
+    rw [sub_self_nonfinite_float32 t h]
+    decide +kernel
+  · exact sameGroup_self_finite_float32 t h
+
+theorem finiteSelfGroup_float32 : FiniteSelfGroup Float32 := fun t _ => sameGroup_self_float32 t
 
 /-! ## non-vacuity: the statements speak about the driver's values -/
 
